@@ -11,6 +11,10 @@ DRIVER = "Driver/C32.lean"
 
 
 def run(ctx):
+    import importlib.util, os as _os
+    _sp = importlib.util.spec_from_file_location("_writers", _os.path.join(_os.path.dirname(__file__), "_writers.py"))
+    _w = importlib.util.module_from_spec(_sp); _sp.loader.exec_module(_w)
+    _w.run(ctx, ['x/pocketcore/keeper', 'x/pocketcore'])
     ctx.lean_proofs("Props.C32")
     ctx.rule("c32: histories of 44 blocks on a fresh chain (7 staked nodes, 5 per session, 2 applications one with a 6-relay allowance, "
              "(BlocksPerSession, ClaimSubmissionWindow, ClaimExpiration) drawn from (4,2,3) (3,2,2) (5,3,4)); per block 0-4 transactions drawn by a "
